@@ -489,7 +489,6 @@ func (r *Recomposer) recomp(v any, rv reflect.Value) {
 		}
 		for k := range im {
 			sf := im[k]
-			f := rv.FieldByIndex(sf.Index)
 			var m any
 			var has bool
 			if m, has = vm[k]; !has {
@@ -502,7 +501,7 @@ func (r *Recomposer) recomp(v any, rv reflect.Value) {
 				}
 			}
 			if has && m != nil {
-				r.setValue(m, f, &sf)
+				r.setValue(m, fieldByIndexAlloc(rv, sf.Index), &sf)
 			}
 		}
 	case reflect.Interface:
@@ -521,6 +520,22 @@ func (r *Recomposer) recomp(v any, rv reflect.Value) {
 	default:
 		panic(fmt.Errorf("can not convert (%T)%v to a %s", v, v, rv.Type()))
 	}
+}
+
+// fieldByIndexAlloc is reflect.Value.FieldByIndex for a field that is about to
+// be set: a nil embedded pointer on the way is allocated instead of causing a
+// panic.
+func fieldByIndexAlloc(rv reflect.Value, index []int) reflect.Value {
+	for i, x := range index {
+		if 0 < i && rv.Kind() == reflect.Ptr {
+			if rv.IsNil() {
+				rv.Set(reflect.New(rv.Type().Elem()))
+			}
+			rv = rv.Elem()
+		}
+		rv = rv.Field(x)
+	}
+	return rv
 }
 
 func (r *Recomposer) setValue(v any, rv reflect.Value, sf *reflect.StructField) {
